@@ -1492,6 +1492,16 @@ class MacroFunction(Macro):
         except ValueError:
             return -1
 
+    def _parameter_index(self, tok):
+        """
+        Returns the index of the parameter named by the token tok.
+        Raises ValueError if tok is not an identifier naming a parameter:
+        a literal spelled like a parameter ("x", 'x') is not a parameter.
+        """
+        if not isinstance(tok, Identifier):
+            raise ValueError(f"{tok.token} is not a parameter")
+        return self.args.index(tok.token)
+
     def __repr__(self):
         return _representation_string(
             self,
@@ -1543,7 +1553,7 @@ class MacroFunction(Macro):
                     prev_white = last.prev_white
                     if not last_cat:
                         try:
-                            argidx = self.args.index(last.token)
+                            argidx = self._parameter_index(last)
                             last = input_args[argidx][0]  # Unexpanded arg
                         except ValueError:
                             last = [last]
@@ -1552,7 +1562,7 @@ class MacroFunction(Macro):
                     idx += 1
                     nexttok = self.replacement[idx]
                     try:
-                        argidx = self.args.index(nexttok.token)
+                        argidx = self._parameter_index(nexttok)
                         nexttok = input_args[argidx][0]  # Unexpanded arg
                     except ValueError:
                         nexttok = [nexttok]
@@ -1581,7 +1591,7 @@ class MacroFunction(Macro):
                         )
                     nexttok = self.replacement[idx]
                     try:
-                        argidx = self.args.index(nexttok.token)
+                        argidx = self._parameter_index(nexttok)
                         tok = input_args[argidx][0]  # Unexpanded arg
                     except ValueError:
                         raise ParseError(
@@ -1606,7 +1616,7 @@ class MacroFunction(Macro):
             # If a token matches an argument, it is substituted;
             # otherwise it passes through
             try:
-                substitution = input_args[self.args.index(token.token)][1]
+                substitution = input_args[self._parameter_index(token)][1]
                 if len(substitution) > 0:
                     substitution[0] = copy(substitution[0])
                     substitution[0].prev_white = token.prev_white
